@@ -314,6 +314,32 @@ def r07_9(ctx):
     ctx.ob("R07.9", "serialize-passes-the-callers-options", ok, detail, "html5ever serialize::serialize")
 
 
+def formatting_end_tags(ctx):
+    """in body, the end tags of exactly the formatting elements (a b big code em font i nobr s small strike strong tt u) run the
+    adoption agency algorithm - an end tag handled as 'any other end tag' pops the element but leaves its entry on the list of
+    active formatting elements, and the next text is wrapped in a reconstructed copy"""
+    import json, os
+    from . import nfq
+    spec = json.load(open(os.path.join(os.path.dirname(os.path.dirname(os.path.abspath(__file__))), "ref", "spec_sets.json")))
+    want = set(spec["formatting_start_tags"])
+    key, step = nfq.cells(ctx, "html_tree_builder", "rules::TreeBuilder<Handle,Sink>::step")
+    adopt = set()
+    for pc in nfq.feasible(step):
+        if not pc["guards"].get("p1 matches InBody"):
+            continue
+        names = nfq.names(pc)
+        if "self.adoption_agency" in names and "self.create_formatting_element_for" not in names and "self.handle_misnested_a_tags" not in names:
+            s = None
+            for g, v in pc["guards"].items():
+                if v and g.startswith("p2 matches Tag("):
+                    t = {nm for k, nm in re.findall(r"Tag\{kind:(\w+),name:atom:([\w:-]+)\}", g) if k == "EndTag"}
+                    s = t if s is None else s & t
+            adopt |= (s or set())
+    ok = adopt == want
+    ctx.ob("R07.14", "adoption-agency-end-tags", ok, "end tags of the %d formatting elements run the adoption agency" % len(want) if ok else
+           "end tags that run the adoption agency: missing %s, extra %s" % (sorted(want - adopt), sorted(adopt - want)), "html5ever tree_builder rules.rs InBody")
+
+
 def r07_13(ctx):
     """rcdom's Serialize: 'inner equals outer' needs the nodes written between an element's start and end tag to be the very
     nodes written for that element as the ChildrenOnly root: both are the node's `children`, in order"""
@@ -351,6 +377,10 @@ def r07_13(ctx):
 
 
 def run(ctx):
+    ctx.rule("R07.14", "the re-parse does not restructure what was serialized: 'is this formatting entry still open' searches the whole stack (R02.15), and the end tags of all formatting elements run the adoption agency (R02.1)")
+    from . import tbhelpers as _tbh
+    ctx.guard("R07.14", "marker-or-open", lambda: ctx.under("R07.14", lambda: _tbh.marker_or_open(ctx)))
+    ctx.guard("R07.14", "formatting-end-tags", lambda: ctx.under("R07.14", lambda: formatting_end_tags(ctx)))
     ctx.rule("R07.13", "rcdom Serialize: the root's children (ChildrenOnly) and an inner element's children (between its tags) are the same list, node.children")
     ctx.guard("R07.13", "rcdom-serialize", lambda: r07_13(ctx))
     ctx.rule("R07.12", "what the serializer escapes is decoded again at the very end of a fragment too: end of input inside a character reference looks up the name matched so far (R14.10)")
